@@ -522,6 +522,13 @@ static ares_ssize_t s_sendto(ares_socket_t fd, const void *buf, size_t len, int,
   size_t n = len;
   if (w->write_pos < w->write_plan.size()) {
     int k = w->write_plan[w->write_pos++];
+    if (k == -2) {
+      // a write on a connection whose handshake is still in flight: not an error, the caller has to wait
+      w->log(fmt("send(%d) -> EINPROGRESS (plan)", fd));
+      w->W("plan_einprogress");
+      errno = EINPROGRESS;
+      return -1;
+    }
     if (k <= 0) {
       w->log(fmt("send(%d) -> EWOULDBLOCK (plan)", fd));
       w->W("plan_wouldblock");
